@@ -193,10 +193,11 @@ pub fn generate(rng: &mut Rng, tier: Tier, emit: &mut dyn FnMut(String)) {
         }
     }
     // full exhaustion: 32768 allocations, the next ones fail, free some, least id first
-    emit("map A32768;a1;a2;A5;l17;l5;l32767;a3;a4;a5;a6;o3;l5;l17;L0:200;A201;L32700:68;A70;L0:32768;a7;h".to_owned());
+    emit("map A32768;a1;a2;A5;l17;l5;l32767;a3;a4;a5;a6;o3;l5;l17;L0:200;A201;L32700:68;A70;a7;l9;o8;a8;l64;l63;a9;a10;l10;l11".to_owned());
     if !quick {
-        emit("map A32767;a1;a2;a3;l64;l63;a4;a5;l0;l32767;a6;a7;a8;o6;o7;l0;l32767;L1:32767;h".to_owned());
-        emit("map A20000;L0:20000:;h".replace(":;", ";"));
+        emit("map A32767;a1;a2;a3;l64;l63;a4;a5;l0;l32767;a6;a7;a8;o6;o7;l0;l32767;L1:2000;A2001;l32767".to_owned());
+        emit("map A20000;L0:20000;h".to_owned());
+        emit("map A32768;L0:32768;a1;h".to_owned());
     }
     // connection level: exhaustive short schedules, then random ones
     let calpha = ["s", "S", "c0", "c1", "p0", "r0", "r1", "u0", "u1", "g", "G", "x"];
